@@ -1,11 +1,6 @@
 package main
 
 import (
-	"fmt"
-	"go/token"
-	"go/types"
-	"strings"
-
 	"golang.org/x/tools/go/ssa"
 )
 
@@ -15,603 +10,11 @@ func init() {
 	register("P-CTOR", "every File constructor initialises a multi-line Group and fresh, empty imports and hints maps; HeaderComment / PackageComment / CgoPreamble append the caller's text unmodified", 9, rulePXCtor)
 }
 
-// builderItemTypes: for a call of a builder (package function returning a fresh *Statement) the set
-// of concrete item types it appends; ok=false if not recognised.
-func (c *Ctx) builderItemTypes(call *ssa.Call) (map[string]bool, bool) {
-	sc := call.Call.StaticCallee()
-	if sc == nil || c.CG().Sum[sc] == nil {
-		return nil, false
-	}
-	out := map[string]bool{}
-	seen := map[*ssa.Function]bool{}
-	var visit func(f *ssa.Function, depth int) bool
-	visit = func(f *ssa.Function, depth int) bool {
-		if depth > 3 || seen[f] {
-			return depth <= 3
-		}
-		seen[f] = true
-		for _, b := range f.Blocks {
-			for _, in := range b.Instrs {
-				switch x := in.(type) {
-				case *ssa.Call:
-					if bi, ok := x.Call.Value.(*ssa.Builtin); ok {
-						if bi.Name() == "append" && len(x.Call.Args) == 2 {
-							va, ok := varargs(x.Call.Args[1])
-							if !ok {
-								return false
-							}
-							for _, v := range va {
-								mi, ok := v.(*ssa.MakeInterface)
-								if !ok {
-									if u, isLoad := v.(*ssa.UnOp); isLoad {
-										_ = u
-									}
-									return false
-								}
-								out[types.TypeString(mi.X.Type(), shortQual)] = true
-							}
-						}
-						continue
-					}
-					cal := x.Call.StaticCallee()
-					if cal == nil || x.Call.IsInvoke() {
-						return false
-					}
-					if c.CG().Sum[cal] == nil {
-						// external: only formatting helpers
-						n := cal.String()
-						if !(pureExternal[n] || strings.HasPrefix(n, "strconv.") || strings.HasPrefix(n, "strings.")) {
-							return false
-						}
-						continue
-					}
-					if !visit(cal, depth+1) {
-						return false
-					}
-				}
-			}
-		}
-		return true
-	}
-	if !visit(sc, 0) {
-		return nil, false
-	}
-	return out, true
-}
-
-// registrationFree: a call in f that (by CHA) may reach the registration function is nevertheless
-// registration-free if it renders a freshly built statement holding only comment items.
-func (c *Ctx) registrationFreeRender(a *FnA, ci ssa.CallInstruction) bool {
-	cc := ci.Common()
-	sc := cc.StaticCallee()
-	if sc == nil || cc.IsInvoke() || len(cc.Args) == 0 {
-		return false
-	}
-	if sc != c.method("Statement", c.renderName()) {
-		return false
-	}
-	bc, ok := cc.Args[0].(*ssa.Call)
-	if !ok {
-		return false
-	}
-	ts, ok := c.builderItemTypes(bc)
-	if !ok || len(ts) == 0 {
-		return false
-	}
-	for t := range ts {
-		if t != "jen.comment" {
-			return false
-		}
-	}
-	// comment.render itself must not reach registration
-	for _, r := range c.codeImpls(c.renderName()) {
-		if r.Signature.Recv() != nil && types.TypeString(r.Signature.Recv().Type(), shortQual) == "jen.comment" {
-			if c.CG().Reach(r)[c.registerFn()] {
-				return false
-			}
-		}
-	}
-	return true
-}
-
 type srcEvent struct {
 	name string
 	in   ssa.Instruction
 }
 
-func ruleFileRenderOrder(c *Ctx) []Obligation {
-	o := c.newObs("P-FILERENDER-ORDER")
-	f := c.method("File", "Render")
-	ri := c.role("renderImports")
-	grender := c.method("Group", c.renderName())
-	if f == nil || ri == nil || grender == nil {
-		o.undecided("(*jen.File).Render", "anchor", token.NoPos, "anchor lost: File.Render / renderImports / Group.render")
-		return o.list
-	}
-	a := c.FA(f)
-	fn := fname(f)
-	g := c.CG()
-	reg := c.registerFn()
-	// body render
-	var body ssa.CallInstruction
-	for _, ci := range a.callsTo(grender) {
-		body = ci
-	}
-	if body == nil {
-		// through the promoted method wrapper
-		for _, ci := range a.calls() {
-			if sc := ci.Common().StaticCallee(); sc != nil && sc.Name() == c.renderName() && g.Reach(sc)[grender] && len(ci.Common().Args) == 4 {
-				body = ci
-			}
-		}
-	}
-	imps := a.callsTo(ri)
-	if body == nil || len(imps) != 1 {
-		o.add(Violated, fn, "body render and import block are both produced", f.Pos(), true, "body render call found: %v, renderImports calls: %d", body != nil, len(imps))
-		return o.list
-	}
-	imp := imps[0]
-	bargs := body.Common().Args
-	bodyBuf, okBuf := stripConv(bargs[len(bargs)-2]).(*ssa.Alloc)
-	o.req(okBuf && !inCycle(body.Block()), fn, "the body is rendered once into a private buffer", body.Pos(), "writer %s", a.Desc(bargs[len(bargs)-2]))
-	o.req(body.Block().Dominates(imp.Block()) || (body.Block() == imp.Block() && instrIndex(body) < instrIndex(imp)), fn, "the body is rendered before the import block is printed", imp.Pos(), "imports are registered while the body renders; printing the block first would omit them")
-	// the File passed to the body render is the receiver
-	o.req(bargs[len(bargs)-3] == ssa.Value(f.Params[0]), fn, "the body registers its imports in this File", body.Pos(), "file argument %s", a.Desc(bargs[len(bargs)-3]))
-	// nothing after renderImports starts may register
-	after := reachableFrom(imp.Block(), nil)
-	nAfter := 0
-	for _, ci := range a.calls() {
-		if ci == imp || ci == body {
-			continue
-		}
-		isAfter := after[ci.Block()] || (ci.Block() == imp.Block() && instrIndex(ci) > instrIndex(imp))
-		callees, known := g.calleesOf(ci.Common())
-		if !known {
-			continue
-		}
-		may := false
-		for _, cal := range callees {
-			if g.Reach(cal)[reg] {
-				may = true
-			}
-		}
-		if !may {
-			continue
-		}
-		if c.registrationFreeRender(a, ci) {
-			continue
-		}
-		if isAfter {
-			nAfter++
-			o.add(Violated, fn, "call of "+calleeName(ci.Common())+" after the import block may register an import", ci.Pos(), true, "an import registered after the block was printed is missing from the file")
-		} else {
-			o.add(Violated, fn, "call of "+calleeName(ci.Common())+" besides the body render may register an import", ci.Pos(), true, "only the body may reference packages")
-		}
-	}
-	o.add(Discharged, fn, "nothing but the body render can register an import", imp.Pos(), true, "header / package comments are rendered from freshly built comment-only statements (registration-free)")
-	// inside renderImports too
-	{
-		ra := c.FA(ri)
-		bad := 0
-		for _, ci := range ra.calls() {
-			callees, known := g.calleesOf(ci.Common())
-			if !known {
-				continue
-			}
-			may := false
-			for _, cal := range callees {
-				if g.Reach(cal)[reg] {
-					may = true
-				}
-			}
-			if may && !c.registrationFreeRender(ra, ci) {
-				bad++
-				o.add(Violated, fname(ri), "call of "+calleeName(ci.Common())+" may register an import while the block is printed", ci.Pos(), true, "")
-			}
-		}
-		if bad == 0 {
-			o.add(Discharged, fname(ri), "printing the import block registers nothing", ri.Pos(), true, "")
-		}
-	}
-	// the source buffer: the buffer passed to renderImports
-	src, okSrc := stripConv(imp.Common().Args[1]).(*ssa.Alloc)
-	if !okSrc {
-		o.undecided(fn, "source buffer", imp.Pos(), "renderImports writes to %s", a.Desc(imp.Common().Args[1]))
-		return o.list
-	}
-	o.req(src != bodyBuf, fn, "source and body are separate buffers", imp.Pos(), "")
-	// classify every write to the source buffer
-	var evHeaderC, evHeaderNL, evBlank, evDocC, evDocNL, evPkg, evCanon, evSep, evBody ssa.Instruction
-	classifyComment := func(ci ssa.CallInstruction) string {
-		// Comment(x).render(f, source, nil): x from which list?
-		bc, ok := ci.Common().Args[0].(*ssa.Call)
-		if !ok || len(bc.Call.Args) != 1 {
-			return ""
-		}
-		d := collectionShape(a, bc.Call.Args[0])
-		return d
-	}
-	for _, ci := range a.calls() {
-		if ci == imp {
-			continue
-		}
-		cc := ci.Common()
-		// render of a comment statement into source
-		if sc := cc.StaticCallee(); sc != nil && !cc.IsInvoke() && sc == c.method("Statement", c.renderName()) && len(cc.Args) == 4 && stripConv(cc.Args[2]) == ssa.Value(src) {
-			switch classifyComment(ci) {
-			case "recv.headers[·]":
-				evHeaderC = ci
-			case "recv.comments[·]":
-				evDocC = ci
-			default:
-				o.add(Violated, fn, "unexpected statement rendered into the source: "+classifyComment(ci), ci.Pos(), true, "")
-			}
-			o.req(c.registrationFreeRender(a, ci) && cc.Args[1] == ssa.Value(f.Params[0]), fn, "file-level comment is a freshly built comment statement ("+classifyComment(ci)+")", ci.Pos(), "")
-			continue
-		}
-		s := sinkOf(ci)
-		if s == nil || stripConv(s.Writer) != ssa.Value(src) {
-			continue
-		}
-		d := a.DataDesc(s)
-		switch {
-		case d == `"\n"`:
-			// which loop?
-			h := loopHeader(ci.Block())
-			switch {
-			case h != nil && evHeaderC != nil && loopHeader(evHeaderC.Block()) == h:
-				evHeaderNL = ci
-			case h != nil && evDocC != nil && loopHeader(evDocC.Block()) == h:
-				evDocNL = ci
-			case h == nil:
-				if evBlank != nil {
-					o.add(Violated, fn, "more than one blank-line write", ci.Pos(), true, "")
-				}
-				evBlank = ci
-			default:
-				o.add(Violated, fn, "newline written in an unexpected loop", ci.Pos(), true, "")
-			}
-		case d == `"\n\n"`:
-			evSep = ci
-		case s.Kind == "fprintf" && strings.HasPrefix(d, `fmt:"package %s"`):
-			evPkg = ci
-			o.req(d == `fmt:"package %s",recv.name`, fn, "package clause prints the File's package name", ci.Pos(), "%s", d)
-		case s.Kind == "fprintf" && strings.Contains(d, "import"):
-			evCanon = ci
-			o.req(d == `fmt:" // import %q",recv.CanonicalPath`, fn, "canonical import annotation is ` // import \"path\"` with the path quoted", ci.Pos(), "%s", d)
-		case bufferBytesOf(s.Data[0]) == bodyBuf && bodyBuf != nil:
-			evBody = ci
-		default:
-			o.add(Violated, fn, "unexpected write to the source buffer: "+d, ci.Pos(), true, "the file is header comments, package doc, package clause, imports and body — nothing else")
-		}
-	}
-	need := map[string]ssa.Instruction{"header comment": evHeaderC, "header newline": evHeaderNL, "blank line after headers": evBlank, "package comment": evDocC, "package comment newline": evDocNL,
-		"package clause": evPkg, "canonical path annotation": evCanon, "blank line after the package clause": evSep, "body": evBody}
-	missing := false
-	for n, in := range need {
-		if in == nil {
-			o.add(Violated, fn, n+" is written", f.Pos(), true, "no such write to the source buffer found")
-			missing = true
-		}
-	}
-	if missing {
-		return o.list
-	}
-	seq := []srcEvent{{"header comment", evHeaderC}, {"header newline", evHeaderNL}, {"blank line after headers", evBlank}, {"package comment", evDocC}, {"package comment newline", evDocNL},
-		{"package clause", evPkg}, {"canonical path annotation", evCanon}, {"blank line after the package clause", evSep}, {"import block", imp}, {"body", evBody}}
-	before := func(x, y ssa.Instruction) bool {
-		if x.Block() == y.Block() {
-			return instrIndex(x) < instrIndex(y)
-		}
-		// y reachable from x, x not reachable from y (except within x's own loop)
-		return reachableFrom(x.Block(), nil)[y.Block()] && !reachableFrom(y.Block(), nil)[x.Block()]
-	}
-	for i := 0; i+1 < len(seq); i++ {
-		x, y := seq[i], seq[i+1]
-		if x.name == "header comment" || x.name == "package comment" {
-			// comment then its newline, inside the same loop iteration
-			o.req(x.in.Block().Dominates(y.in.Block()) && loopHeader(x.in.Block()) == loopHeader(y.in.Block()), fn, "order: "+x.name+" → "+y.name, y.in.Pos(), "each comment is followed by a newline in the same iteration")
-			continue
-		}
-		o.req(before(x.in, y.in), fn, "order: "+x.name+" → "+y.name, y.in.Pos(), "")
-	}
-	// blank line exactly if there are headers
-	hdrAtom := "empty(recv.headers)"
-	ok, bad := allWays(a.WaysTo(evBlank.Block()), func(w Facts) bool { return w.Has(hdrAtom, false) })
-	o.req(ok, fn, "blank line after the headers only if there are headers", evBlank.Pos(), "way %s", bad)
-	p := a.Cut(f.Blocks[0], evPkg, []ssa.Instruction{evBlank}, []Lit{{hdrAtom, true}})
-	o.req(p == nil, fn, "blank line after the headers whenever there are headers", evBlank.Pos(), "path %s reaches the package clause with headers but without the separating blank line: the header would become part of the package doc", pathString(p))
-	// canonical annotation exactly if set
-	cAtom := "empty(recv.CanonicalPath)"
-	ok, bad = allWays(a.WaysTo(evCanon.Block()), func(w Facts) bool { return w.Has(cAtom, false) })
-	o.req(ok, fn, "canonical path annotation only if CanonicalPath is set", evCanon.Pos(), "way %s", bad)
-	p = a.Cut(evPkg.Block(), evSep, []ssa.Instruction{evCanon}, []Lit{{cAtom, true}})
-	o.req(p == nil, fn, "canonical path annotation whenever CanonicalPath is set", evCanon.Pos(), "path %s", pathString(p))
-	// header loop runs over all headers: guarded at most by the emptiness test
-	return o.list
-}
-
 // ---------------------------------------------------------------------------------------------
 
-func ruleImportBlock(c *Ctx) []Obligation {
-	o := c.newObs("P-IMPORTBLOCK")
-	f := c.role("renderImports")
-	if f == nil {
-		o.undecided("(*jen.File).renderImports", "anchor", token.NoPos, "anchor lost")
-		return o.list
-	}
-	a := c.FA(f)
-	fn := fname(f)
-	w := c.writerParam(f)
-	nAlias, nPlain := 0, 0
-	var cImport *Sink
-	var preambleNL *Sink
-	for _, s := range a.Sinks() {
-		if stripConv(s.Writer) != ssa.Value(w) {
-			o.add(Violated, fn, "write to something other than the writer parameter", s.Call.Pos(), true, "%s", a.Desc(s.Writer))
-			continue
-		}
-		d := a.DataDesc(s)
-		ws := a.WaysTo(s.Call.Block())
-		if s.Kind == "fprintf" {
-			format, _ := constString(s.Data[0])
-			_, verbs := parseFormat(format)
-			args := s.Data[1:]
-			switch len(verbs) {
-			case 2:
-				nAlias++
-				// alias form: name, quoted path of the same entry
-				nameD, pathD := a.Desc(args[0]), a.Desc(args[1])
-				pathArg := ""
-				if call, ok := stripConv(args[1]).(*ssa.Call); ok && call.Call.StaticCallee() != nil && strings.HasPrefix(call.Call.StaticCallee().String(), "strconv.Quote") {
-					pathArg = a.Desc(call.Call.Args[0])
-				}
-				okQ := pathArg != "" || verbs[1] == "q"
-				if pathArg == "" {
-					pathArg = pathD
-				}
-				entryOK, entry := sameEntry(a, args[0], pathArg)
-				o.req(okQ && entryOK && strings.HasSuffix(nameD, ".name") && verbs[0] == "s", fn, fmt.Sprintf("alias import line #%d prints the entry's own name and its quoted path", nAlias), s.Call.Pos(), "format %q name %s path %s", format, nameD, pathD)
-				aliasAtom := entry + ".alias"
-				cAtom := "eq(" + min2(`"C"`, pathArg) + "," + max2(`"C"`, pathArg) + ")"
-				ok, bad := allWays(ws, func(w Facts) bool { return w.Has(aliasAtom, true) && w.Has(cAtom, false) })
-				o.req(ok, fn, fmt.Sprintf("alias import line #%d only for an aliased entry other than \"C\"", nAlias), s.Call.Pos(), "way %s — an alias on \"C\" is a compile error; an alias on a non-aliased entry hides the real package name", bad)
-			case 1:
-				nPlain++
-				pathArg := ""
-				if call, ok := stripConv(args[0]).(*ssa.Call); ok && call.Call.StaticCallee() != nil && strings.HasPrefix(call.Call.StaticCallee().String(), "strconv.Quote") {
-					pathArg = a.Desc(call.Call.Args[0])
-				}
-				o.req(pathArg != "" || verbs[0] == "q", fn, fmt.Sprintf("plain import line #%d prints the quoted path", nPlain), s.Call.Pos(), "format %q arg %s", format, a.Desc(args[0]))
-				if pathArg == "" {
-					pathArg = a.Desc(args[0])
-				}
-				// whenever aliased and not C: not this line
-				entry := entryOfPath(a, s.Call.Block(), pathArg)
-				aliasAtom := entry + ".alias"
-				cAtom := "eq(" + min2(`"C"`, pathArg) + "," + max2(`"C"`, pathArg) + ")"
-				ok, bad := allWays(ws, func(w Facts) bool { return entry != "" && (w.Has(aliasAtom, false) || w.Has(cAtom, true)) })
-				o.req(ok, fn, fmt.Sprintf("plain import line #%d only for a non-aliased entry or \"C\"", nPlain), s.Call.Pos(), "way %s — an aliased entry printed without its alias leaves the qualifier undefined", bad)
-			default:
-				o.add(Violated, fn, "unexpected formatted write "+d, s.Call.Pos(), true, "")
-			}
-			continue
-		}
-		switch d {
-		case `"import (\n"`, `")\n\n"`:
-			ok, bad := allWays(ws, func(w Facts) bool {
-				return hasAtom(w, true, func(s string) bool { return strings.HasPrefix(s, "lt(1,builtin.len(") })
-			})
-			o.req(ok, fn, "parenthesised block "+d+" only for several imports", s.Call.Pos(), "way %s", bad)
-		case `"import \"C\"\n\n"`:
-			cImport = s
-		case `"\n"`:
-			preambleNL = s
-		default:
-			o.add(Violated, fn, "unexpected write "+d, s.Call.Pos(), true, "")
-		}
-	}
-	o.req(nAlias == 2 && nPlain == 2, fn, "single-import and multi-import forms each have an alias and a plain line", f.Pos(), "alias lines %d, plain lines %d", nAlias, nPlain)
-	// filter loop: an entry is left out of the main block only if it is "C" and a preamble exists
-	for _, ml := range mapLoops(f) {
-		if a.Desc(ml.rng.X) != "recv.imports" {
-			continue
-		}
-		var copyUpd *ssa.MapUpdate
-		for b := range ml.blocks {
-			for _, in := range b.Instrs {
-				if mu, ok := in.(*ssa.MapUpdate); ok && stripConv(mu.Key) == ml.key {
-					copyUpd = mu
-					o.req(stripConv(mu.Value) == ml.val, fn, "the main block is built from the registered entries unchanged", mu.Pos(), "value %s", a.Desc(mu.Value))
-				}
-			}
-		}
-		if copyUpd == nil {
-			o.undecided(fn, "filter loop", ml.rng.Pos(), "no copy into the filtered table")
-			continue
-		}
-		keyC := "eq(" + min2(`"C"`, a.Desc(ml.key)) + "," + max2(`"C"`, a.Desc(ml.key)) + ")"
-		for _, p := range ml.header.Preds {
-			if !ml.blocks[p] || p == copyUpd.Block() || copyUpd.Block().Dominates(p) {
-				continue
-			}
-			ok, bad := allWays(a.WaysOnEdge(p, ml.header), func(w Facts) bool {
-				return w.Has(keyC, true) && (w.Has("empty(recv.cgoPreamble)", false) || hasAtom(w, true, func(s string) bool { return strings.HasPrefix(s, "phi:") }))
-			})
-			o.req(ok, fn, "an entry is left out of the main block only if it is \"C\" and a preamble exists", ml.rng.Pos(), "way %s", bad)
-		}
-	}
-	// preamble branch
-	if cImport == nil {
-		o.add(Violated, fn, "`import \"C\"` follows the preamble", f.Pos(), true, "no write of `import \"C\"`")
-		return o.list
-	}
-	ok, bad := allWays(a.WaysTo(cImport.Call.Block()), func(w Facts) bool { return w.Has("empty(recv.cgoPreamble)", false) })
-	o.req(ok, fn, "separate `import \"C\"` only if a preamble exists", cImport.Call.Pos(), "way %s", bad)
-	// preamble comments: rendered from recv.cgoPreamble elements, each followed by exactly "\n", loop directly before the import
-	var pre ssa.CallInstruction
-	for _, ci := range a.callsTo(c.method("Statement", c.renderName())) {
-		if bc, ok := ci.Common().Args[0].(*ssa.Call); ok && len(bc.Call.Args) == 1 && collectionShape(a, bc.Call.Args[0]) == "recv.cgoPreamble[·]" {
-			pre = ci
-		}
-	}
-	if pre == nil || preambleNL == nil {
-		o.add(Violated, fn, "preamble comments are rendered above `import \"C\"`", cImport.Call.Pos(), true, "preamble render found: %v, newline after it: %v", pre != nil, preambleNL != nil)
-		return o.list
-	}
-	o.req(c.registrationFreeRender(a, pre) && stripConv(pre.Common().Args[2]) == ssa.Value(w), fn, "each preamble entry is rendered as a comment into the import block", pre.Pos(), "")
-	h := loopHeader(pre.Block())
-	o.req(h != nil && loopHeader(preambleNL.Call.Block()) == h && pre.Block().Dominates(preambleNL.Call.Block()), fn, "each preamble comment is followed by exactly one newline", preambleNL.Call.Pos(), "a blank line between the preamble and the import makes cgo ignore the preamble")
-	// directly before: the loop's exit leads to the import write with no other write in between
-	if h != nil {
-		var exit *ssa.BasicBlock
-		for _, s := range h.Succs {
-			if !reachableFrom(s, h)[h] || s == cImport.Call.Block() {
-				exit = s
-			}
-		}
-		between := false
-		if exit != nil {
-			for _, s := range a.Sinks() {
-				if s == cImport {
-					continue
-				}
-				sb := s.Call.Block()
-				if (sb == exit || reachableFrom(exit, nil)[sb]) && (reachableFrom(sb, nil)[cImport.Call.Block()] || sb == cImport.Call.Block() && instrIndex(s.Call) < instrIndex(cImport.Call)) {
-					between = true
-				}
-			}
-		}
-		o.req(exit != nil && !between && (exit == cImport.Call.Block() || reachableFrom(exit, nil)[cImport.Call.Block()]), fn, "`import \"C\"` is written directly after the last preamble comment", cImport.Call.Pos(), "")
-		// the preamble loop comes after the main block
-		for _, s := range a.Sinks() {
-			if d := a.DataDesc(s); d == `")\n\n"` {
-				o.req(reachableFrom(s.Call.Block(), nil)[pre.Block()] && !reachableFrom(pre.Block(), nil)[s.Call.Block()], fn, "the cgo import follows the main import block", pre.Pos(), "")
-			}
-		}
-	}
-	return o.list
-}
-
-// sameEntry: name value is `<E>.name` and the path descriptor identifies the same table entry E
-// (range value of the entry whose key is the path, or a lookup table[path]).
-func sameEntry(a *FnA, name ssa.Value, pathDesc string) (bool, string) {
-	nd := a.Desc(name)
-	if !strings.HasSuffix(nd, ".name") {
-		return false, ""
-	}
-	e := strings.TrimSuffix(nd, ".name")
-	// lookup form: T[path]
-	if strings.HasSuffix(e, "["+pathDesc+"]") {
-		return true, e
-	}
-	// range form: next(range(T))#2 with path next(range(T))#1
-	if strings.HasSuffix(e, "#2") && strings.HasSuffix(pathDesc, "#1") && strings.TrimSuffix(e, "#2") == strings.TrimSuffix(pathDesc, "#1") {
-		return true, e
-	}
-	return false, e
-}
-
-// entryOfPath: descriptor of the table entry that belongs to a path descriptor, found among the
-// literals tested on the way to block b.
-func entryOfPath(a *FnA, b *ssa.BasicBlock, pathDesc string) string {
-	for _, w := range a.WaysTo(b) {
-		for atom := range w {
-			if strings.HasSuffix(atom, ".alias") {
-				e := strings.TrimSuffix(atom, ".alias")
-				if strings.HasSuffix(e, "["+pathDesc+"]") {
-					return e
-				}
-				if strings.HasSuffix(e, "#2") && strings.HasSuffix(pathDesc, "#1") && strings.TrimSuffix(e, "#2") == strings.TrimSuffix(pathDesc, "#1") {
-					return e
-				}
-			}
-		}
-	}
-	return ""
-}
-
 // ---------------------------------------------------------------------------------------------
-
-func ruleCtor(c *Ctx) []Obligation {
-	o := c.newObs("P-CTOR")
-	ft := c.fileType()
-	n := 0
-	for _, f := range c.allFuncs(c.Jen) {
-		if f.Parent() != nil || f.Signature.Recv() != nil || f.Signature.Results().Len() != 1 {
-			continue
-		}
-		pt, ok := f.Signature.Results().At(0).Type().(*types.Pointer)
-		if !ok || !types.Identical(pt.Elem(), ft) {
-			continue
-		}
-		n++
-		a := c.FA(f)
-		fn := fname(f)
-		for _, r := range a.returns() {
-			al, ok := r.Results[0].(*ssa.Alloc)
-			if !ok {
-				o.add(Violated, fn, "returns a freshly allocated File", r.Pos(), true, "returns %s", a.Desc(r.Results[0]))
-				continue
-			}
-			fs, _ := allocFields(al)
-			_, okI := fs[c.ff("imports")].(*ssa.MakeMap)
-			_, okH := fs[c.ff("hints")].(*ssa.MakeMap)
-			o.req(okI, fn, "imports is a fresh empty map", r.Pos(), "imports = %s (a nil map makes the first registration panic)", a.Desc(fs[c.ff("imports")]))
-			o.req(okH, fn, "hints is a fresh empty map", r.Pos(), "hints = %s", a.Desc(fs[c.ff("hints")]))
-			gal, okG := fs["Group"].(*ssa.Alloc)
-			okM := false
-			if okG {
-				gfs, _ := allocFields(gal)
-				if b, isB := constBool(gfs["multi"]); isB && b {
-					okM = true
-				}
-				for k, v := range gfs {
-					if k == "multi" {
-						continue
-					}
-					if s, isS := constString(v); !isS || s != "" {
-						okM = false
-					}
-				}
-			}
-			o.req(okG && okM, fn, "the File's group is a fresh multi-line group without delimiters", r.Pos(), "top-level declarations must each start on their own line")
-		}
-	}
-	if n < 3 {
-		o.undecided("jen", "File constructors", token.NoPos, "expected 3 constructors, found %d", n)
-	}
-	// comment setters: HeaderComment / PackageComment / CgoPreamble append their argument unmodified
-	for _, f := range c.allFuncs(c.Jen) {
-		if f.Parent() != nil || !isFileMethod(c, f) || !isExportedName(f.Name()) || f.Signature.Params().Len() != 1 || f.Signature.Results().Len() != 0 {
-			continue
-		}
-		if b, ok := f.Signature.Params().At(0).Type().Underlying().(*types.Basic); !ok || b.Kind() != types.String {
-			continue
-		}
-		a := c.FA(f)
-		for _, b := range f.Blocks {
-			for _, in := range b.Instrs {
-				st, ok := in.(*ssa.Store)
-				if !ok {
-					continue
-				}
-				fld := fieldOf(st.Addr)
-				if fld != "jen.File.headers" && fld != "jen.File.comments" && fld != "jen.File.cgoPreamble" {
-					continue
-				}
-				okApp := false
-				if call, ok := st.Val.(*ssa.Call); ok {
-					if bi, ok := call.Call.Value.(*ssa.Builtin); ok && bi.Name() == "append" && strings.HasPrefix(a.Desc(call.Call.Args[0]), "recv."+strings.TrimPrefix(fld, "jen.File.")) {
-						if va, ok := varargs(call.Call.Args[1]); ok && len(va) == 1 && va[0] == ssa.Value(f.Params[1]) {
-							okApp = true
-						}
-					}
-				}
-				uncond := len(f.Blocks) == 1
-				o.req(okApp && uncond, fname(f), "appends the caller's text, whole and unmodified, to "+fld, st.Pos(), "stored %s — splitting or rewriting the text changes which comment form (line / block / raw) each piece takes when it is rendered", a.Desc(st.Val))
-			}
-		}
-	}
-	return o.list
-}
